@@ -16,6 +16,14 @@ CHECKS = {
          "Every type expression with <=2 constructors (quick: plus k=3 with minimal parentheses; thorough: k<=3 with every single redundant pair of parentheses and k=4 minimal) over slices, 2/3-tuples, arrows (incl. unit argument/result, right-nesting through parentheses), external generics ext.Box<T>/ext.Pair<K,V>, user generic G<T>, written in each of the 5 positions, is transpiled by the fc built from the working tree; the Go type text found at the corresponding place of gen_*.go (go/parser, normalised with go/types.ExprString) must equal the reference printer's text.",
          "Leaves rotate over the base types instead of the full product; () only as sole parameter or result; emitted files are parsed, not compiled.",
          "DESIGN.md C15"),
+ "C04": ("complete enumeration of the finite artefact space (35 artefacts x 2 compiler generations) with byte comparison",
+         "The recipes are read from the working tree (fc/fc_all.sh, samples/myfc.sh + filelist.txt, cmd/build_sample_md/fc.sh). Generation 1 = fc built from the checked-in gen_*.go; its gofmt'ed output must equal every checked-in generated file byte for byte, the rebuilt build_sample_md must reproduce samples/README.md, and generation 2 (compiler built from generation 1's raw output + wrapper.go) must reproduce generation 1's raw output exactly. The space is finite and is enumerated completely; thorough repeats both generations 3 times.",
+         "gofmt of the installed go1.23.5; unlisted samples/gen_*.go are reported, not judged.",
+         "DESIGN.md C04"),
+ "C18": ("bounded-exhaustive enumeration of list files x sample contents (choice-tree explorer), one tool process per case, vs. a reference renderer calibrated on the checked-in README",
+         "Every list file with 0..2 (quick) / 0..3 (thorough) entries x name kind x 5 title forms x 5 file contents or a missing file x 5 blank-line patterns x final newline is given to the build_sample_md built from the working tree in a fresh directory; README.md must equal the reference rendering (byte-exact while the reference renderer reproduces the repository's own samples/README.md, structural otherwise); an unreadable file must give a non-zero exit and no README.md.",
+         "The fixed header is learnt from the checked-in samples/README.md.",
+         "DESIGN.md C18"),
 }
 NOT_APPLICABLE = []
 
